@@ -88,8 +88,8 @@ func (dm *DMap) deleteBackupOnCluster(hkey uint64, key string) error {
 	return g.Wait()
 }
 
-// deleteOnCluster is not a thread-safe function
-func (dm *DMap) deleteOnCluster(hkey uint64, key string, f *fragment) error {
+// deleteOnOtherMembers deletes the copies of the key held by the previous owners and the backups.
+func (dm *DMap) deleteOnOtherMembers(hkey uint64, key string) error {
 	owners := dm.s.primary.PartitionOwnersByHKey(hkey)
 	if len(owners) == 0 {
 		panic("partition owners list cannot be empty")
@@ -105,6 +105,15 @@ func (dm *DMap) deleteOnCluster(hkey uint64, key string, f *fragment) error {
 		if err != nil {
 			return err
 		}
+	}
+	return nil
+}
+
+// deleteOnCluster is not a thread-safe function
+func (dm *DMap) deleteOnCluster(hkey uint64, key string, f *fragment) error {
+	err := dm.deleteOnOtherMembers(hkey, key)
+	if err != nil {
+		return err
 	}
 
 	err = f.storage.Delete(hkey)
@@ -131,7 +140,9 @@ func (dm *DMap) deleteKey(key string) error {
 	if !f.storage.Check(hkey) {
 		// DeleteMisses is the number of deletions reqs for missing keys
 		DeleteMisses.Increase(1)
-		return nil
+		// This member may have taken the partition over without its data: after a fail-over
+		// or during rebalancing the key still lives on a backup or on a previous owner.
+		return dm.deleteOnOtherMembers(hkey, key)
 	}
 
 	return dm.deleteOnCluster(hkey, key, f)
